@@ -411,14 +411,15 @@ def classify(src, v):
 
 
 def child(arg):
-  from vf.gen import programs
+  from vf.gen import programs, programs2
+  gen = programs2.generate if arg.get("family") == "idioms" else programs.generate
   rng = random.Random(arg["seed"])
   out = {"programs": 0, "completed": 0, "raised": 0, "analysis_error": 0, "timeout": 0,
          "items": {}, "nontrivial_items": 0, "any_items": 0, "violations": [], "fps": [],
          "samples": [], "errors": []}
   for i in range(arg["count"]):
     pseed = rng.randrange(1 << 40)
-    src = programs.generate(random.Random(pseed))
+    src = gen(random.Random(pseed))
     out["programs"] += 1
     r = run_one(src)
     if r["status"] == "raised":
@@ -488,8 +489,15 @@ def _tasks(tier, seed):
     nb, cnt = 16, 16
   else:
     nb, cnt = 96, 64
-  return [{"fn": "vf.checks.c01:child", "id": f"b{i}", "timeout": 2400 if tier == "quick" else 7200,
-           "arg": {"seed": rng.randrange(1 << 40), "count": cnt}} for i in range(nb)]
+  tasks = [{"fn": "vf.checks.c01:child", "id": f"b{i}", "timeout": 2400 if tier == "quick" else 7200,
+            "arg": {"seed": rng.randrange(1 << 40), "count": cnt}} for i in range(nb)]
+  # the idiom family (vf/gen/programs2.py: truthiness of instances, per-key dict tracking) is one fixed,
+  # pre-swept workload per tier, the same for every VERIF_SEED
+  irng = random.Random(f"C01-idioms-{tier}")
+  inb, icnt = (8, 16) if tier == "quick" else (32, 32)
+  tasks += [{"fn": "vf.checks.c01:child", "id": f"i{i}", "timeout": 2400 if tier == "quick" else 7200,
+             "arg": {"seed": irng.randrange(1 << 40), "count": icnt, "family": "idioms"}} for i in range(inb)]
+  return tasks
 
 
 def run(tier, seed):
@@ -498,7 +506,9 @@ def run(tier, seed):
       rule=("seeded loop-free programs (vf/gen/programs.py: classes with single/multiple inheritance, functions with "
             "defaults/closures/lambdas/early returns, if/else on constant, unknown, isinstance and None tests, and/or/"
             "conditional values, try/except rebinding, container literals and mutation through aliases, comprehensions "
-            "over literals, builtin calls). Each is run by CPython under sys.setprofile and analysed by pytype; every "
+            "over literals, builtin calls) plus one fixed idiom workload (vf/gen/programs2.py: truthiness of instances whose "
+            "class defines or only inherits __bool__/__len__, dict literals with a constant key stored in one arm of an "
+            "undecidable branch). Each is run by CPython under sys.setprofile and analysed by pytype; every "
             "module-level name, instance attribute and module-level call result is tested for membership in its declared "
             "type. evaluations = programs that ran to completion and were judged; non-trivial = program with >=1 judged "
             "item whose declared type is not Any; distinct by source hash."))
